@@ -231,7 +231,10 @@ Definition tstep (sk : tskel) (reqs : list req) (s : tstate) (i : nat) : tstate 
                      t_ths := upd i (advance sk (TReader pc (Some k) r)) (t_ths s);
                      t_sent := t_sent s; t_failed := t_failed s; t_queue := t_queue s; t_answered := t_answered s;
                      t_reg := t_reg s; t_clean := t_clean s; t_del := t_del s; t_log := (k, r) :: t_log s |}
-              | _ => set_ths s adv
+              | _ =>
+                  {| t_lk := t_lk s; t_inuse := inuse'; t_raced := t_raced s; t_tab := t_tab s; t_ths := adv;
+                     t_sent := t_sent s; t_failed := t_failed s; t_queue := t_queue s; t_answered := t_answered s;
+                     t_reg := t_reg s; t_clean := t_clean s; t_del := t_del s; t_log := t_log s |}
               end
           | MDeleteHeld =>
               match held_of t, found_of t with
@@ -387,8 +390,7 @@ Definition run_c04 (c : sx) : sx :=
       (* free-running: n connect/createStream requests, each answered as soon as it is written *)
       let n' := Z.to_nat n in
       let reqs := map (fun k => {| q_tid := Z.of_nat (S k); q_name := 1 + Z.of_nat (k mod 2); q_fail := false |}) (seq 0 n') in
-      let sched := flat_map (fun k => repeat 0%nat 16 ++ [(2 + k)%nat] ++ repeat 1%nat 8) (seq 0 n')
-                   ++ repeat 1%nat (16 * S n') in
+      let sched := flat_map (fun k => repeat 0%nat 7 ++ [(2 + k)%nat] ++ repeat 1%nat 7) (seq 0 n') in
       let s := trun repo_skel reqs (tinit reqs [seq 0 n'] 1) sched in
       SL [SZ 0; snat (length (filter (fun e => match snd e with Some _ => true | None => false end) (t_log s)));
           snat (length (filter (fun e => match snd e with Some _ => false | None => true end) (t_log s)));
